@@ -1040,9 +1040,6 @@ package server
 //@ func Server.cmdJset
 //@   frame-by-effects
 //@   entry-assume s != nil && msg != nil && len(msg.Args) > 0 && s.config != nil
-//@ func Server.cmdPDEL
-//@   frame-by-effects
-//@   entry-assume s != nil && msg != nil && len(msg.Args) > 0 && s.config != nil
 //@ func Server.cmdPDelHook
 //@   frame-by-effects
 //@   entry-assume s != nil && msg != nil && len(msg.Args) > 0 && s.config != nil
@@ -1172,3 +1169,37 @@ package server
 //@   ensures [eq] wOp(where) == "==" ==> result == valEq(value, where.max)
 //@   ensures [ne] wOp(where) == "!=" ==> result == !valEq(value, where.max)
 //@   ensures [range] wOp(where) != "<" && wOp(where) != "<=" && wOp(where) != ">" && wOp(where) != ">=" && wOp(where) != "==" && wOp(where) != "!=" ==> result == (ite(where.minx, vless(where.min, value), !vless(value, where.min)) && ite(where.maxx, vless(value, where.max), !vless(where.max, value)))
+
+// ---- PDEL against the map model (C01, C12): delete exactly the ids the pattern matches --------------------
+// idfilt(p, S, n): the ids of the objects among S[0..n) whose id p matches; delAll(M, ids, n): M without ids[0..n)
+//@ ghost func idfilt(p string, S []ref, n int) []string
+//@ axiom idfilt.0: allstr(p, allof("[]ref", S, idfilt(p, S, 0) == emptyseq("[]string")))
+//@ axiom idfilt.step: allstr(p, allof("[]ref", S, allint(n, 0 <= n && n < len(S) ==> idfilt(p, S, n+1) == ite(globMatches(p, objID(S[n])), app1(idfilt(p, S, n), objID(S[n])), idfilt(p, S, n)))))
+//@ ghost scratch pids []string
+//@ ghost func delAll(M map[string]ref, ids []string, n int) map[string]ref
+//@ axiom delall.0: allof("map[string]ref", M, allof("[]string", ids, delAll(M, ids, 0) == M))
+//@ axiom delall.step: allof("map[string]ref", M, allof("[]string", ids, allint(n, 0 <= n && n < len(ids) ==> delAll(M, ids, n+1) == store(delAll(M, ids, n), ids[n], nil))))
+//@ func Server.cmdPDEL
+//@   frame-by-effects
+//@   uses idfilt.0, idfilt.step, delall.0, delall.step, sum.nonneg
+//@   entry-assume registriesNonNil(s) && allstr(k, (*s.cols)[k] != nil ==> colInv((*s.cols)[k])) && ksNonEmpty(s) && ksInj(s)
+//@   requires s != nil && msg != nil
+//@   modifies steps, perCall
+//@   set-at-call Collection.Scan#1 objs0 = col.objs
+//@   set-at-call Collection.ScanRange#1 objs0 = col.objs
+//@   set-at-call Collection.Count#1 pids = ids
+//@   loop 1 invariant col != nil && colInv(col) && col.objs == objs0 && ids == idfilt(pattern, seq1, idx1)
+//@   loop 2 invariant col != nil && colInv(col) && col.objs == objs0 && ids == idfilt(pattern, seq2, idx2)
+//@   loop 3 invariant [a] col != nil && colInv(col)
+//@   loop 3 invariant [b] len(children) == idx3
+//@   loop 3 invariant [c] col.objs == delAll(objs0, ids, idx3)
+//@   loop 3 invariant [d] (*s.cols)[key] == col && *s.cols == old(*s.cols)
+//@   loop 3 invariant [e] allint(c, c != col ==> astype(c, "collection.Collection").objs == old(astype(c, "collection.Collection").objs))
+//@   ensures [error-changes-nothing] result2 != nil ==> *s.cols == old(*s.cols) && colsUntouched()
+//@   at-return [pdel.count] result2 == nil && col != nil ==> len(result1.children) == len(pids) && result1.updated == (len(pids) > 0)
+//@   at-return [pdel.model] result2 == nil && col != nil ==> col.objs == delAll(objs0, pids, len(pids))
+//@   at-return [pdel.others] result2 == nil ==> allint(c, c != col ==> astype(c, "collection.Collection").objs == old(astype(c, "collection.Collection").objs))
+//@   at-return [pdel.keyspace] result2 == nil && col != nil ==> *s.cols == ite(col.objects + col.nobjects == 0, store(old(*s.cols), key, nil), old(*s.cols))
+//@   ensures [exists-iff-nonempty] ksNonEmpty(s)
+//@   at-return [reply] result2 == nil && msg.OutputType == RESP ==> result0 == respInt(len(result1.children))
+//@   ensures [json-reply] result2 == nil && msg.OutputType == JSON ==> jsonDoc(result0)
